@@ -1,6 +1,7 @@
 package families
 
 import (
+	"strings"
 	"fmt"
 
 	corev1 "k8s.io/api/core/v1"
@@ -110,6 +111,42 @@ var C12BinderHalf func(tier string) (map[string]any, []engine.Violation)
 // C12EndToEnd is set by package checks/c12binder: scenarios whose bind events are real binder reconciles.
 var C12EndToEnd func(tier string) []clustermc.Scenario
 
+// handoffPersistentScenarios: hand-offs that fail REPEATEDLY, explored on ONE scheduler cache that
+// lives across all cycles of a path (clustermc.Family.Persistent): what the cache remembers from the
+// clean-up of the first stale request must not get in the way of the second.
+func handoffPersistentScenarios(tier string) []clustermc.Scenario {
+	variant := &clustermc.Family{
+		Property:   "C12",
+		Persistent: true,
+		Depth: func(tier string) int {
+			if tier == "thorough" {
+				return 7
+			}
+			return 5
+		},
+		Env:     clustermc.EnvOpts{BindOK: true, BindFail: true, DeleteNode: true},
+		Oracles: []clustermc.Oracle{oracle.HandoffOracle()},
+	}
+	var out []clustermc.Scenario
+	for _, sc := range handoffScenarios(tier) {
+		// one workload being handed off, a whole-GPU or fractional pod, no competitors; both layouts with nodes
+		if !strings.HasSuffix(sc.Name, "+none") || strings.HasPrefix(sc.Name, "selected-node-deleted") {
+			continue
+		}
+		if !(strings.Contains(sc.Name, ":failed1-nil-") || strings.Contains(sc.Name, ":notstarted-nil-")) {
+			continue
+		}
+		if !(strings.Contains(sc.Name, "-g1+") || strings.Contains(sc.Name, "-f5+")) {
+			continue
+		}
+		sc.Name = "persistent-cache:" + sc.Name
+		sc.Configs = sc.Configs[:1]
+		sc.Variant = variant
+		out = append(out, sc)
+	}
+	return out
+}
+
 func C12() *clustermc.Family {
 	return &clustermc.Family{
 		Extra: func(tier string) (map[string]any, []engine.Violation) {
@@ -120,7 +157,7 @@ func C12() *clustermc.Family {
 		},
 		Property:  "C12",
 		Scenarios: func(tier string) []clustermc.Scenario {
-			out := handoffScenarios(tier)
+			out := append(handoffScenarios(tier), handoffPersistentScenarios(tier)...)
 			if C12EndToEnd != nil {
 				out = append(out, C12EndToEnd(tier)...)
 			}
